@@ -39,6 +39,7 @@ PROPS = ["C13", "C25", "C26", "C27", "C29", "C30", "C36", "C37", "C38"]
 KNOWN_FILE = os.path.join(HERE, "known_findings.json")
 REPLAY_DIR = os.path.join(HERE, "replays")
 EVID_DIR = os.path.join(HERE, "evidence")
+CASE_CAP = 4_000_000  # distinct-case digests kept in memory; beyond it distinct_nontrivial is a lower bound
 
 
 def load_prop(pid: str):
@@ -139,7 +140,10 @@ def work_batch(pid: str, start: int, count: int, seed: int, tier: str, want_dige
 def merge(total: dict, part: dict) -> None:
     total["evaluations"] += part["evaluations"]
     total["units"] += part["units"]
-    total["cases"].update(part["cases"])
+    if len(total["cases"]) < CASE_CAP:
+        total["cases"].update(part["cases"])
+    else:
+        total["cases_not_counted"] = total.get("cases_not_counted", 0) + len(part["cases"])
     total["sim_time"] += part["sim_time"]
     for k, v in part["counters"].items():
         total["counters"][k] = total["counters"].get(k, 0) + v
@@ -584,6 +588,8 @@ def main() -> int:
                 "fixed_regressions": regress,
                 "real_vs_stub": mod.REAL_STUB,
                 "exhaustive": False,
+                "distinct_nontrivial_is_lower_bound": bool(total.get("cases_not_counted")),
+                "case_digests_not_counted_after_cap": total.get("cases_not_counted", 0),
                 "harness_errors": len(harness_msgs),
             },
         }
